@@ -26,7 +26,7 @@ var R = hx.NewRecorder("C01", "cases = (key, message, user id, 40-byte nonce blo
 var cv = rsm2.Std
 
 func TestMain(m *testing.M) {
-	R.Require("keyless_forgery_r+s=n", "lz_d", "lz_xy", "uid_absent", "uid_long", "msg_empty", "msg>1block", "der_nonstrict", "verify_equal_points",
+	R.Require("keyless_forgery_r+s=n", "lz_d", "lz_xy", "uid_absent", "uid_long", "msg_empty", "msg>1block", "der_nonstrict", "verify_equal_points", "verify_inverse_points",
 		"p:msg", "p:uid", "p:pubkey", "p:r_range", "p:s_range", "p:r+s=0", "p:other_msg_sig", "p:negP")
 	hx.Main(m, R)
 }
@@ -431,6 +431,56 @@ func TestC01_VerifyEqualPoints(t *testing.T) {
 			t.Fatalf("Verify rejected a valid signature whose verification adds two equal points: d=%x e=%x r=%x s=%x", d, e, r, s)
 		}
 		R.Case(true, hx.HashKey("eqpts", d.Bytes(), r.Bytes()), "verify_equal_points")
+	})
+}
+
+// Tuples that force [s]G == -[t]P inside verification: the sum is the point at infinity, which has no x coordinate, so no
+// digest makes the tuple a signature (s = -r*d*(1+d)^-1 mod n gives s + t*d = 0). The digests tried are the ones a slip in
+// the addition of inverse points would satisfy: r - x(2[s]G) (doubling instead), r - x([s]G) (one operand returned) and
+// a random one. e = r (which an "x = 0" encoding of infinity would satisfy) is left out: the standard does not name the case.
+func TestC01_VerifyInversePoints(t *testing.T) {
+	hx.Check(t, hx.N(200, 4000), func(t *rapid.T) {
+		key := gen.KeyPair(hx.Root()).Draw(t, "key")
+		d := key.D
+		r := gen.BigBelow(new(big.Int).Sub(cv.N, big.NewInt(1))).Draw(t, "r")
+		r.Add(r, big.NewInt(1))
+		inv := new(big.Int).Add(big.NewInt(1), d)
+		inv.Mod(inv, cv.N)
+		if inv.Sign() == 0 {
+			R.Discard()
+			return
+		}
+		inv.ModInverse(inv, cv.N)
+		s := new(big.Int).Mul(r, d)
+		s.Mul(s, inv).Neg(s).Mod(s, cv.N)
+		tt := new(big.Int).Add(r, s)
+		tt.Mod(tt, cv.N)
+		if s.Sign() == 0 || tt.Sign() == 0 {
+			R.Discard()
+			return
+		}
+		sG := cv.BaseMul(s)
+		if !cv.Add(sG, cv.Mul(key.Pub, tt)).Inf {
+			t.Fatalf("harness: construction failed, the sum is not the point at infinity")
+		}
+		for _, x := range []*big.Int{cv.Double(sG).X, sG.X, gen.BigBelow(cv.N).Draw(t, "x")} {
+			e := new(big.Int).Sub(r, x)
+			e.Mod(e, cv.N)
+			if e.Cmp(r) == 0 {
+				continue
+			}
+			if cv.VerifyE(key.Pub, e, r, s) {
+				t.Fatalf("harness: reference accepts a tuple whose verification point is infinite")
+			}
+			var got bool
+			if p := hx.Try(func() { got = sm2.Verify(sm2x.Pub(key.Pub), rsm2.Pad32(e), r, s) }); p != nil {
+				t.Fatalf("Verify panicked: %v", p.Val)
+			}
+			if got {
+				t.Fatalf("Verify ACCEPTED a tuple whose verification point [s]G + [t]P is the point at infinity: d=%x e=%x r=%x s=%x", d, e, r, s)
+			}
+		}
+		R.Case(true, hx.HashKey("invpts", d.Bytes(), r.Bytes()), "verify_inverse_points")
 	})
 }
 
